@@ -9,20 +9,23 @@ From Kenlm Require Import C18.FilePieceModel C18.FilePieceSpec C18.WindowProofs 
   C18.ReadCompressedModel C18.ReadCompressedProofs C18.TokenizeModel C18.TokenizeProofs C18.LineInputModel C18.LineInputProofs.
 Import ListNotations.
 
-(* MAIN: for every input, every read() chunking, every min_buffer, every page size, all three backends and every
+(* `start_of b` is 0 for every backend except BFileAt k (a regular file handed over as a descriptor positioned at offset k,
+   behind a header the caller consumed): there the input is `skipn k data`, offsets stay absolute, and at_ok asks k < length.
+   MAIN: for every input, every read() chunking, every min_buffer, every page size, all three backends and every
    finite sequence of calls, the values AND the offsets reported are those the specification computes from the whole
    input (agreement = equality, except that an exhausted input may be answered by a failure instead of "end"). *)
-Theorem C18_window_refines_spec : forall b P min_buffer data chunks ops, 0 < P ->
+Theorem C18_window_refines_spec : forall b P min_buffer data chunks ops, 0 < P -> at_ok b data ->
   exists tr, transcript repaired b P min_buffer data chunks ops = Some tr /\
-             Forall2 obs_agree (spec_run (length data) ops data) tr.
+             Forall2 obs_agree (spec_run (length data) ops (skipn (start_of b) data)) tr.
 Proof. exact (window_refines_spec repaired eq_refl eq_refl eq_refl). Qed.
 
 (* ... in particular two runs that differ only in backend / chunking / min_buffer agree with the same list *)
 Theorem C18_transparent : forall b1 b2 P mb1 mb2 data chunks1 chunks2 ops, 0 < P ->
+  at_ok b1 data -> at_ok b2 data -> start_of b1 = start_of b2 ->
   exists tr1 tr2, transcript repaired b1 P mb1 data chunks1 ops = Some tr1 /\
                   transcript repaired b2 P mb2 data chunks2 ops = Some tr2 /\
-                  Forall2 obs_agree (spec_run (length data) ops data) tr1 /\
-                  Forall2 obs_agree (spec_run (length data) ops data) tr2 /\
+                  Forall2 obs_agree (spec_run (length data) ops (skipn (start_of b1) data)) tr1 /\
+                  Forall2 obs_agree (spec_run (length data) ops (skipn (start_of b1) data)) tr2 /\
                   map snd tr1 = map snd tr2.
 Proof. exact transparent. Qed.
 
@@ -37,19 +40,19 @@ Proof. exact partial_read_interrupts. Qed.
 Theorem C18_header_read_ignores_interrupts : forall data o, open_fd data (strip_interrupts o) = strip_src (open_fd data o).
 Proof. exact open_fd_interrupts. Qed.
 
-Theorem C18_interrupts_invisible : forall b P mb data chunks ops, 0 < P ->
+Theorem C18_interrupts_invisible : forall b P mb data chunks ops, 0 < P -> at_ok b data ->
   exists tr1 tr2, transcript repaired b P mb data chunks ops = Some tr1 /\
                   transcript repaired b P mb data (strip_interrupts chunks) ops = Some tr2 /\
-                  Forall2 obs_agree (spec_run (length data) ops data) tr1 /\
-                  Forall2 obs_agree (spec_run (length data) ops data) tr2 /\
+                  Forall2 obs_agree (spec_run (length data) ops (skipn (start_of b) data)) tr1 /\
+                  Forall2 obs_agree (spec_run (length data) ops (skipn (start_of b) data)) tr2 /\
                   map snd tr1 = map snd tr2 /\
                   (forallb exact_op ops = true -> map fst tr1 = map fst tr2).
 Proof. exact interrupts_invisible. Qed.
 
 (* ReadLine / ReadDelimited / ReadWordSameLine / get / peek sequences: the results are EQUAL to the specification's *)
-Theorem C18_exact_ops_equal : forall b P min_buffer data chunks ops, 0 < P -> forallb exact_op ops = true ->
+Theorem C18_exact_ops_equal : forall b P min_buffer data chunks ops, 0 < P -> at_ok b data -> forallb exact_op ops = true ->
   exists tr, transcript repaired b P min_buffer data chunks ops = Some tr /\
-             map fst tr = map fst (spec_run (length data) ops data).
+             map fst tr = map fst (spec_run (length data) ops (skipn (start_of b) data)).
 Proof. exact exact_ops_equal. Qed.
 
 (* once the input is exhausted every further call reports end / fails / returns no data; the offset stays put *)
@@ -59,13 +62,13 @@ Proof. exact (after_eof repaired eq_refl eq_refl eq_refl). Qed.
 
 (* a token is never split, merged or lost at a window boundary: n calls of ReadDelimited return the first n maximal
    runs of non-space bytes of the input, in order, then end of input *)
-Theorem C18_no_split_merge : forall b P min_buffer data chunks n, 0 < P ->
+Theorem C18_no_split_merge : forall b P min_buffer data chunks n, 0 < P -> at_ok b data ->
   exists tr, transcript repaired b P min_buffer data chunks (repeat ODelim n) = Some tr /\
-             map fst tr = expect_words n (words data).
+             map fst tr = expect_words n (words (skipn (start_of b) data)).
 Proof. exact (no_split_merge repaired eq_refl eq_refl eq_refl). Qed.
 
 (* the loops terminate: the bound on Shift calls built into the model is never hit *)
-Theorem C18_fuel_never_exhausted : forall b P min_buffer data chunks ops tr, 0 < P ->
+Theorem C18_fuel_never_exhausted : forall b P min_buffer data chunks ops tr, 0 < P -> at_ok b data ->
   transcript repaired b P min_buffer data chunks ops = Some tr -> Forall (fun x => fst x <> ROutOfFuel) tr.
 Proof. exact (fuel_suffices repaired eq_refl eq_refl eq_refl). Qed.
 
